@@ -233,7 +233,10 @@ Emit == (Mode \in {"builders", "queries"} /\ S.form = "ef") =>
             PrintT(<<"SCRIPT", ToJson([fam |-> "ef", src |-> "tlc", ops |-> hist \o Battery])>>)
 
 \* a builder that still misses exactly one value is finished anyway
-EmitShort == (Mode = "builders" /\ S.form = "builder" /\ Len(xs) + 1 = S.n /\ Len(hist) = S.n + Extra) =>
+\* (and so is, at full length, every history that never completed: several
+\* rejected pushes, pushes after a rejected one)
+EmitShort == (Mode = "builders" /\ S.form = "builder" /\
+              ((Len(xs) + 1 = S.n /\ Len(hist) = S.n + Extra) \/ (Len(xs) < S.n /\ Len(hist) = S.n + Extra + 1))) =>
             PrintT(<<"SCRIPT", ToJson([fam |-> "ef", src |-> "tlc",
                      ops |-> hist \o <<[op |-> "build", kind |-> KindSeq[(Mix(xs) % Len(KindSeq)) + 1]],
                                        [op |-> "len"], [op |-> "iter"], [op |-> "get", i |-> 0],
